@@ -45,41 +45,55 @@ Inductive kind (s s' : st) : Prop :=
 | K_flag n :
     insd s n -> ptr (nxw s' n) = ptr (nxw s n) -> is_removed (nxw s' n) = true ->
     (is_owner (nxw s n) = true -> is_owner (nxw s' n) = true) ->
-    (forall x, x <> n -> nxw s' x = nxw s x) -> (forall x, insd s' x <-> insd s x) -> kind s s'.
+    (forall x, x <> n -> nxw s' x = nxw s x) -> (forall x, insd s' x <-> insd s x) -> kind s s'
+| K_repl t old new onext sz :       (* replace: old is flagged removed + owned and, in the same word, linked to the new node, whose successor is old's *)
+    PCr C s t = R_Cas old new onext sz ->
+    insd s old -> ~ insd s new -> new <> 0 -> nxw s old = onext -> is_removed onext = false -> nxw s new = onext ->
+    ptr (nxw s' old) = new -> is_removed (nxw s' old) = true -> is_owner (nxw s' old) = true ->
+    (forall x, x <> old -> nxw s' x = nxw s x) -> (forall x, insd s' x <-> insd s x \/ x = new) -> kind s s'.
 
 Lemma drain_post_nx (m : mem hloc) q x : drain hloc hloc_eqb m (post_of q) (HNext x) =
-  match q with A_Cas nd _ _ _ it => if N.eqb nd x then clr it else m (HNext x) | _ => m (HNext x) end.
+  match q with A_Cas nd _ _ _ it => if N.eqb nd x then clr it else m (HNext x) | R_Cas _ nw on _ => if N.eqb nw x then on else m (HNext x) | _ => m (HNext x) end.
 Proof.
   destruct q; cbn [post_of drain]; reflexivity.
 Qed.
 Lemma drain_post_ins (m : mem hloc) q x : drain hloc hloc_eqb m (post_of q) (HIns x) = m (HIns x).
 Proof. destruct q; cbn [post_of drain]; reflexivity. Qed.
 
-(* a step whose only possible write is the plain store that precedes the insertion cmpxchg *)
+(* the node whose forward pointer is initialised on the way into an insertion / replacement cmpxchg *)
+Definition post_node (q : hpc) : option N := match q with A_Cas nd _ _ _ _ => Some nd | R_Cas _ nw _ _ => Some nw | _ => None end.
+
+(* a step whose only possible write is the plain store that precedes the insertion / replacement cmpxchg *)
 Lemma kind_post (s : st) t q p' :
-  Inv2 s -> (forall nd b u pv it, q = A_Cas nd b u pv it -> In nd (future C s t)) ->
+  Inv2 s -> (forall nd, post_node q = Some nd -> In nd (future C s t)) ->
   kind s (mkst2 C (drain hloc hloc_eqb (smem _ _ s) (post_of q)) (tupd hloc (hprog C) (sthr _ _ s) t p')).
 Proof.
   intros HI Hq. destruct q; try (apply K_same; intros x; [unfold LfhtReach.nxw, Mm; cbn [smem mkst2]; rewrite drain_post_nx; reflexivity|unfold LfhtReach.insd, Mm; cbn [smem mkst2]; rewrite drain_post_ins; tauto]).
-  destruct (J_fut C isB s HI t node (Hq _ _ _ _ _ eq_refl)) as (Hni & _).
-  apply (K_priv s _ node Hni).
-  - intros x Hx. unfold LfhtReach.nxw, Mm; cbn [smem mkst2]. rewrite drain_post_nx. destruct (N.eqb_spec node x); [congruence|reflexivity].
-  - intros x. unfold LfhtReach.insd, Mm; cbn [smem mkst2]. rewrite drain_post_ins. tauto.
+  - destruct (J_fut C isB s HI t node (Hq _ eq_refl)) as (Hni & _).
+    apply (K_priv s _ node Hni).
+    + intros x Hx. unfold LfhtReach.nxw, Mm; cbn [smem mkst2]. rewrite drain_post_nx. destruct (N.eqb_spec node x); [congruence|reflexivity].
+    + intros x. unfold LfhtReach.insd, Mm; cbn [smem mkst2]. rewrite drain_post_ins. tauto.
+  - destruct (J_fut C isB s HI t new (Hq _ eq_refl)) as (Hni & _).
+    apply (K_priv s _ new Hni).
+    + intros x Hx. unfold LfhtReach.nxw, Mm; cbn [smem mkst2]. rewrite drain_post_nx. destruct (N.eqb_spec new x); [congruence|reflexivity].
+    + intros x. unfold LfhtReach.insd, Mm; cbn [smem mkst2]. rewrite drain_post_ins. tauto.
 Qed.
 
-Lemma into_cas_mine (p : hst) r nd b u pv it :
-  (forall a1 a2 a3 a4 a5, hcur p <> A_Cas a1 a2 a3 a4 a5) ->
-  hcur (hnext C p r) = A_Cas nd b u pv it -> mine (hcur p) = Some nd.
+Definition not_cas (q : hpc) : Prop := (forall a1 a2 a3 a4 a5, q <> A_Cas a1 a2 a3 a4 a5) /\ (forall a1 a2 a3 a4, q <> R_Cas a1 a2 a3 a4).
+
+Lemma into_cas_mine (p : hst) r nd :
+  not_cas (hcur p) -> post_node (hcur (hnext C p r)) = Some nd -> mine (hcur p) = Some nd.
 Proof.
-  intros Hnc. unfold hnext. destruct (hcur p) eqn:Ep; cbn [hcur]; try discriminate;
-    try (destruct (htodo p) as [|[]]; cbn [hcur]; try rewrite Ep; discriminate);
-    unfold add_at, dup_at, lookup_at, gc_at;
-    repeat match goal with |- context [if ?c then _ else _] => destruct c end; cbn [hcur mine]; try discriminate;
+  intros [Hnc Hnr]. unfold hnext. destruct (hcur p) eqn:Ep; cbn [hcur post_node]; try discriminate;
+    try (destruct (htodo p) as [|[]]; cbn [hcur post_node]; try rewrite Ep; try discriminate);
+    try (exfalso; eapply Hnc; reflexivity); try (exfalso; eapply Hnr; reflexivity);
+    unfold add_at, dup_at, lookup_at, gc_at, rgc_at, repl_at, repl_start;
+    repeat match goal with |- context [if ?c then _ else _] => destruct c end; cbn [hcur mine post_node]; try discriminate;
     try (intros E; inversion E; reflexivity).
 Qed.
 
-Lemma hpost_not_cas (p : hst) r : (forall a1 a2 a3 a4 a5, hcur p <> A_Cas a1 a2 a3 a4 a5) -> hpost C p r = post_of (hcur (hnext C p r)).
-Proof. intros Hnc. unfold hpost. destruct (hcur p) eqn:Ep; try reflexivity. exfalso. eapply Hnc. reflexivity. Qed.
+Lemma hpost_not_cas (p : hst) r : not_cas (hcur p) -> hpost C p r = post_of (hcur (hnext C p r)).
+Proof. intros [Hnc Hnr]. unfold hpost. destruct (hcur p) eqn:Ep; try reflexivity; exfalso; [eapply Hnc|eapply Hnr]; reflexivity. Qed.
 
 Lemma step_kind (s : st) t : Inv2 s -> kind s (fst (exec hloc hloc_eqb (hprog C) (Step t) s)).
 Proof.
@@ -88,14 +102,14 @@ Proof.
   unfold PCr in Hli, Hl3, Hcr. unfold FND in Hcr.
   assert (Hfut : future C s t = fut_of (tpc _ _ (THr C s t))) by reflexivity.
   set (p := tpc _ _ (THr C s t)) in *.
-  (* generic treatment of every step that is not one of the five writers *)
-  assert (Hgen : forall r, (forall a1 a2 a3 a4 a5, hcur p <> A_Cas a1 a2 a3 a4 a5) ->
+  (* generic treatment of every step that is not one of the writers *)
+  assert (Hgen : forall r, not_cas (hcur p) ->
             kind s (mkst2 C (drain hloc hloc_eqb (smem _ _ s) (hpost C p r)) (tupd hloc (hprog C) (sthr _ _ s) t (mkts2 C (hnext C p r))))).
   { intros r Hnc. rewrite (hpost_not_cas p r Hnc). apply (kind_post s t _ _ HI).
-    intros nd b u pv it E. rewrite Hfut. unfold fut_of. rewrite (into_cas_mine p r nd b u pv it Hnc E). left; reflexivity. }
+    intros nd E. rewrite Hfut. unfold fut_of. rewrite (into_cas_mine p r nd Hnc E). left; reflexivity. }
   unfold hact. destruct (hcur p) eqn:Epc; cbn [eff2 fst snd];
-    try (apply Hgen; intros; discriminate).
-  - (* Idle *) destruct (htodo p) as [|[]] eqn:Etd; [apply K_same; intros; tauto| | |]; apply Hgen; intros; discriminate.
+    try (apply Hgen; split; intros; discriminate).
+  - (* Idle *) destruct (htodo p) as [|[]] eqn:Etd; [apply K_same; intros; tauto| | | |]; apply Hgen; split; intros; discriminate.
   - (* A_Cas *)
     cbn in Hl3. destruct Hl3 as [HBb Hpv]. destruct Hli as [[Hrm Hnode] _].
     assert (Hcp : insd s prev).
@@ -164,6 +178,41 @@ Proof.
     + intros _. unfold LfhtReach.nxw, Mm; cbn [smem mkst2]. rewrite upd_s. apply own_lor4.
     + intros x Hx. unfold LfhtReach.nxw, Mm; cbn [smem mkst2]. apply upd_o. congruence.
     + intros x. reflexivity.
+  - (* R_Cas *)
+    destruct Hli as [[Hrm Hnew] [Ho0 HoB]].
+    assert (Hoi : insd s old).
+    { assert (Hin : In old (refs (R_Cas old new onext sz) ++ [found p])) by (cbn; tauto). destruct (Hcr _ Hin) as [E|H]; [contradiction|exact H]. }
+    assert (Hinn : In new (future C s t)) by (rewrite Hfut; unfold fut_of; rewrite Epc; left; reflexivity).
+    destruct (J_fut C isB s HI t new Hinn) as (Hni & Hn0 & _).
+    change (smem hloc (hprog C) s (HNext old)) with (nxw s old).
+    unfold hpost. rewrite Epc.
+    destruct (N.eqb_spec (nxw s old) onext) as [Eq|Ne].
+    + apply (K_repl s _ t old new onext sz Epc Hoi Hni Hn0 Eq Hrm Hnew).
+      * unfold LfhtReach.nxw, Mm; cbn [smem mkst2 drain]. rewrite upd_o by discriminate. rewrite upd_s. apply ptr_mkp5.
+      * unfold LfhtReach.nxw, Mm; cbn [smem mkst2 drain]. rewrite upd_o by discriminate. rewrite upd_s. apply rem_mkp5.
+      * unfold LfhtReach.nxw, Mm; cbn [smem mkst2 drain]. rewrite upd_o by discriminate. rewrite upd_s. unfold is_owner, mkp. rewrite tb2. reflexivity.
+      * intros x Hx. unfold LfhtReach.nxw, Mm; cbn [smem mkst2 drain]. rewrite upd_o by discriminate. apply upd_o. congruence.
+      * intros x. unfold LfhtReach.insd, Mm; cbn [smem mkst2 drain]. destruct (N.eq_dec x new) as [->|Hne].
+        -- rewrite upd_s. split; [intros _; right; reflexivity|intros _; reflexivity].
+        -- rewrite upd_o by congruence. rewrite upd_o by discriminate. split; [intros H; left; exact H|intros [H|H]; [exact H|contradiction]].
+    + destruct (is_removed (nxw s old)); [apply K_same; intros x; cbn [drain]; reflexivity || tauto|].
+      apply (K_priv s _ new Hni).
+      * intros x Hx. unfold LfhtReach.nxw, Mm; cbn [smem mkst2 drain]. apply upd_o. congruence.
+      * intros x. unfold LfhtReach.insd, Mm; cbn [smem mkst2 drain]. rewrite upd_o by discriminate. tauto.
+  - (* RG_Cas *)
+    destruct Hli as [(Hrm & Hpi & Hrn & Hpn & Hrn2) _].
+    assert (Hcp : insd s prev).
+    { assert (Hin : In prev (refs (RG_Cas new b old prev iter next) ++ [found p])) by (cbn; tauto). destruct (Hcr _ Hin) as [E|H]; [cbn in Hl3; destruct Hl3; contradiction|exact H]. }
+    change (smem hloc (hprog C) s (HNext prev)) with (nxw s prev).
+    assert (Hp0 : hpost C p (nxw s prev) = []) by (unfold hpost, hnext; rewrite Epc; reflexivity). rewrite Hp0. cbn [drain].
+    destruct (N.eqb_spec (nxw s prev) iter) as [Eq|Ne].
+    + apply (K_gc s _ prev iter next Hcp Eq Hrm Hpi Hpn Hrn2).
+      * unfold LfhtReach.nxw, Mm; cbn [smem mkst2]. rewrite upd_s. destruct (is_bucket iter); [apply ptr_clr_b|apply ptr_clr].
+      * unfold LfhtReach.nxw, Mm; cbn [smem mkst2]. rewrite upd_s. destruct (is_bucket iter); [apply rem_clrB|apply rem_clr].
+      * unfold LfhtReach.nxw, Mm; cbn [smem mkst2]. rewrite upd_s. destruct (is_bucket iter); [apply own_clrB|apply own_clr].
+      * intros x Hx. unfold LfhtReach.nxw, Mm; cbn [smem mkst2]. apply upd_o. congruence.
+      * intros x. reflexivity.
+    + apply K_same; intros x; reflexivity || tauto.
 Qed.
 
 (* one step of thread t: only t's local state changes, and the memory change is one of the five kinds *)
